@@ -63,6 +63,7 @@ type raceReq struct {
 	pinned     bool   // the reply must be pinned to rxIf (link-local peer / broadcast)
 	unanswered bool   // a datagram of a kind the server never answers
 	storm      bool   // part of the refresh storm (replies are only checked for the echo)
+	removable  bool   // static DHCPv6 client whose line comes and goes during the refresh storm
 	l2storm    bool   // part of a link-level storm (static client, answered with a raw frame)
 	l2link     string // DHCPv4 answered at link level: the interface the request arrived on (ve0|vf0)
 	relay      byte   // DHCPv4: last byte of the relay address 10.9.9.x the request came through
@@ -202,11 +203,12 @@ func (raceEngine) Run(ctx *fw.Ctx, cs any) {
 				}
 			}
 			if rewrite && j == 0 {
-				cr.Write = &FileWrite{Name: "l4.txt", Content: versionFile(false, raceStaticMacs, ver, "")}
+				// (every third burst installs the new version by renaming a new file over the name)
+				cr.Write = &FileWrite{Name: "l4.txt", Content: versionFile(false, raceStaticMacs, ver, ""), Rename: b%3 == 2}
 				cr.SleepMs = rng.Intn(300) // microseconds here (see child)
 			}
 			if rewrite && j == 1 {
-				cr.Write = &FileWrite{Name: "l6.txt", Content: versionFile(true, raceStaticMacs, ver, "")}
+				cr.Write = &FileWrite{Name: "l6.txt", Content: versionFile(true, raceStaticMacs, ver, ""), Rename: b%3 == 1}
 				cr.SleepMs = rng.Intn(300)
 			}
 			reqs = append(reqs, r)
@@ -245,6 +247,10 @@ func (raceEngine) Run(ctx *fw.Ctx, cs any) {
 	{
 		stormV4 := versionFile(false, raceStaticMacs, ver, "")
 		stormV6 := versionFile(true, raceStaticMacs, ver, "")
+		// every other rewrite of the DHCPv6 file drops the last static client (same length: its line becomes a
+		// comment); that client keeps asking: it gets its address or nothing from this plugin, never anything else
+		lastLine := fmt.Sprintf("%s %s\n", net.HardwareAddr(refreshMac(raceStaticMacs-1)), versionAddr(true, ver, raceStaticMacs-1))
+		stormV6Alt := strings.Replace(stormV6, lastLine, "#"+strings.Repeat("x", len(lastLine)-2)+"\n", 1)
 		for j := 0; j < 3000; j++ {
 			xid++
 			r := &raceReq{v6: j%3 == 2, xid: xid & 0xffffff, unanswered: false}
@@ -252,9 +258,12 @@ func (raceEngine) Run(ctx *fw.Ctx, cs any) {
 			var cr ChainReq
 			if r.v6 {
 				// an IA_NA from a client the file does not list (MAC from the DUID): lookup miss in the v6 instance
+				if j%2 == 0 && stormV6Alt != stormV6 {
+					r.mac, r.static, r.macIdx, r.removable = refreshMac(raceStaticMacs-1), true, raceStaticMacs-1, true
+				}
 				msg := pkt.Msg6(3, r.xid, []pkt.Opt6{pkt.O6(pkt.OptClientID6, pkt.DUIDLL(r.mac)), pkt.O6(pkt.OptServerID6, serverDUID), pkt.IANA(9, 0, 0, nil)})
 				cr = ChainReq{V6: true, Hex: hex.EncodeToString(msg), RxIf: fakeIf, Peer: "2001:db8:ffff::99", Port: 546, Async: true}
-				r.storm = true
+				r.storm = !r.removable
 			} else {
 				p := pkt.Request4(r.xid, r.mac, 1, pkt.O4(61, append([]byte{1}, r.mac...)...))
 				p.Gi = pkt.IP4("10.9.9.9")
@@ -266,7 +275,7 @@ func (raceEngine) Run(ctx *fw.Ctx, cs any) {
 				cr.Write = &FileWrite{Name: "l4.txt", Content: stormV4, Repeat: 2000, IntervalUs: 50}
 			}
 			if j == 1 {
-				cr.Write = &FileWrite{Name: "l6.txt", Content: stormV6, Repeat: 2000, IntervalUs: 50}
+				cr.Write = &FileWrite{Name: "l6.txt", Content: stormV6, Alt: stormV6Alt, Repeat: 2000, IntervalUs: 50}
 			}
 			reqs = append(reqs, r)
 			job.Reqs = append(job.Reqs, cr)
@@ -435,8 +444,13 @@ func (raceEngine) Run(ctx *fw.Ctx, cs any) {
 							ctx.Viol("C16", "static-mapping-mixture", "%s: static client #%d got %s, which is not its address in any version of the lease file", desc, rq.macIdx, addrs[9][0])
 						}
 						verSeen[fmt.Sprintf("v6/%d", rq.macIdx)] = append(verSeen[fmt.Sprintf("v6/%d", rq.macIdx)], verObs{rq.call, rq.ret, v})
+					} else if rq.removable && err == nil && len(addrs) == 0 {
+						ctx.Count("race.removable_static_client_unlisted", 1)
 					} else {
 						ctx.Viol("C16", "static-client-not-served", "%s: static DHCPv6 client #%d got %v (%v)", desc, rq.macIdx, addrs, err)
+					}
+					if rq.removable {
+						ctx.Count("race.removable_static_client_requests", 1)
 					}
 					continue
 				}
